@@ -11,7 +11,7 @@ from .. import estimators as E, gen
 RULE = ('ENUMERATED: 17 estimators x applicable methods of {fit, transform, pair_distance, pair_score, score_pairs, '
         'predict, decision_function, score, calibrate_threshold} x {no preprocessor, array preprocessor} x the '
         'malformation grammar (ndim 0..4 off the documented one, tuple size 1..5 != expected, zero samples, zero '
-        'features, NaN/+inf/-inf, str / object dtype, ragged nested list, feature count d+-1, NaN reached through '
+        'features, NaN/+inf/-inf, str / object dtype, ragged nested list, feature count d+-1 / 1 / 2d, NaN reached through '
         'the preprocessor, pair labels {0,2,-2,0.5,"a"}, label-length mismatch, n_components in {0,-1,d+1}) - every '
         'cell once; GENERATED: Hypothesis draws the cell plus the size of the otherwise well-formed input and the '
         'position of the bad entry; EQUIVALENCE: integral training/query data as list / int32 / int64 / Fortran / '
@@ -29,7 +29,7 @@ PAIR_METHODS = ['pair_distance', 'pair_score', 'score_pairs']
 TUPLE_METHODS = ['predict', 'decision_function', 'score']
 
 FORM_MALF = ['scalar', 'ndim-1', 'ndim+1', 'ndim+2', 'zero-samples', 'zero-features', 'nan', 'inf', '-inf',
-             'str', 'object', 'ragged', 'features-1', 'features+1', 'tuple1', 'tuple2', 'tuple3', 'tuple4', 'tuple5']
+             'str', 'object', 'ragged', 'features-1', 'features+1', 'features=1', 'features=2d', 'tuple1', 'tuple2', 'tuple3', 'tuple4', 'tuple5']
 IDX_MALF = ['idx-tuple1', 'idx-tuple2', 'idx-tuple3', 'idx-tuple4', 'idx-tuple5', 'idx-zero-samples',
             'idx-nan-row', 'idx-ndim+2']
 Y_MALF = ['y-short', 'y-long', 'y-label-0', 'y-label-2', 'y-label--2', 'y-label-0.5', 'y-label-a']
@@ -80,7 +80,7 @@ def applicable(name, method, preproc, malf):
     return True
   if malf.startswith('tuple'):
     return kind == 'tuples' and int(malf[-1]) != ts
-  if malf in ('features-1', 'features+1'):
+  if malf in ('features-1', 'features+1', 'features=1', 'features=2d'):
     return method != 'fit'
   if malf == 'ndim-1' and preproc:
     return False      # indicators by definition
@@ -162,6 +162,10 @@ def malform(arr, malf, pos, kind, ts):
     return a[..., :-1]
   if malf == 'features+1':
     return np.concatenate([a, a[..., :1]], axis=-1)
+  if malf == 'features=1':
+    return a[..., :1]          # a single feature: broadcasting-prone
+  if malf == 'features=2d':
+    return np.concatenate([a, a], axis=-1)
   if malf.startswith('tuple'):
     s = int(malf[-1])
     reps = np.concatenate([a] * 3, axis=1)
